@@ -23,6 +23,7 @@ def about : FEv → Nat
   | .resp c _ => c
   | .result c _ => c
   | .panicked c => c
+  | .notReady c => c
 
 def evsOf (c : Nat) (l : List FEv) : List FEv := l.filter (fun e => about e == c)
 
@@ -75,6 +76,17 @@ theorem completionBackup_about (c : Nat) (rq : Request) (k : Nat) (out : Out) :
      rcases he with rfl | rfl | rfl <;> rfl) <;> skip
   all_goals (rcases he with rfl | rfl <;> rfl)
 
+theorem backupNotReady_about (c : Nat) : ∀ e ∈ backupNotReady c, about e = c := by
+  intro e he
+  simp only [backupNotReady, List.mem_cons, List.mem_nil_iff, or_false] at he
+  rcases he with rfl | rfl <;> rfl
+
+theorem arriveEvents_about (c : Nat) (r : Option (Option Outcome)) : ∀ e ∈ arriveEvents c r, about e = c := by
+  intro e he
+  rcases r with _ | _ | o <;> simp only [arriveEvents, List.mem_cons, List.mem_nil_iff, or_false] at he
+  · subst he; rfl
+  · rcases he with rfl | rfl <;> rfl
+
 /-! ## the stages of one request's trace -/
 
 /-- trace of a request whose inner call (serial `k`, outcome `out`) has completed and that did
@@ -89,6 +101,15 @@ def traceToBackup (cfg : Cfg) (c : Nat) (rq : Request) (n k : Nat) (out : Out) (
 /-- the shapes a finished (or cancelled) request's trace can have -/
 inductive Final (cfg : Cfg) (c : Nat) : List FEv → Prop
   | unpolled : Final cfg c []
+  /-- the wrapped service was not ready when the request arrived: the caller gave up, no call was made -/
+  | notReady : Final cfg c [.notReady c]
+  /-- the wrapped service failed readiness: its error, unchanged, under the pass-through variant — no
+  predicate, no strategy, no inner call, no backup call -/
+  | readyFailed : Final cfg c [.resp c (.inner readyErr), .result c (.inner readyErr)]
+  /-- the backup service failed readiness: a failure of the backup, without a backup call -/
+  | backupNotReady (rq : Request) (n k : Nat) (out : Out) (hn : out ≠ .never)
+      (h : (completionInner cfg c rq n k out).2 = .toBackup) :
+      Final cfg c (traceFin cfg c rq n k out ++ backupNotReady c)
   | droppedInner (rq : Request) (k : Nat) : Final cfg c [.innerCall c k rq, .innerDrop c k]
   | finished (rq : Request) (n k : Nat) (out : Out) (hn : out ≠ .never)
       (h : (completionInner cfg c rq n k out).2 = .fin) : Final cfg c (traceFin cfg c rq n k out)
@@ -168,12 +189,33 @@ theorem touches_pollBackup (s : State) (c : Nat) (rq : Request) (k t : Nat) (out
   · exact (touches_emit c s _ (completionBackup_about c rq k out)).trans (touches_setPhase c _ _)
   · exact Touches.refl c s
 
-theorem touches_startBackup (s : State) (c : Nat) (rq : Request) (bk : Step) :
-    Touches c s (startBackup s c rq bk) := by
-  unfold startBackup
+theorem touches_callBackup (s : State) (c : Nat) (rq : Request) (bk : Step) :
+    Touches c s (callBackup s c rq bk) := by
+  unfold callBackup
   refine Touches.trans ?_ (touches_pollBackup _ c rq _ _ _)
   refine Touches.trans (s2 := emit { s with serial := s.serial + 1 } [.backupCall c s.serial rq]) ?_ (touches_setPhase c _ _)
   exact ⟨fun _ _ => rfl, ⟨[.backupCall c s.serial rq], rfl, by intro e he; simp at he; subst he; rfl⟩⟩
+
+/-- the two ways `startBackup` goes: the backup's readiness answer after its pending run -/
+theorem startBackup_error {cfg : Cfg} {s : State} {c : Nat} {rq : Request} {bk : Step}
+    (h : answer cfg.bready (s.brdy + pendingRun (cfg.bready.drop s.brdy)) = .error) :
+    startBackup cfg s c rq bk
+      = setPhase (emit { s with brdy := s.brdy + pendingRun (cfg.bready.drop s.brdy) + 1 } (backupNotReady c)) c .done := by
+  simp only [startBackup, h]
+
+theorem startBackup_ready {cfg : Cfg} {s : State} {c : Nat} {rq : Request} {bk : Step}
+    (h : answer cfg.bready (s.brdy + pendingRun (cfg.bready.drop s.brdy)) ≠ .error) :
+    startBackup cfg s c rq bk = callBackup { s with brdy := s.brdy + pendingRun (cfg.bready.drop s.brdy) + 1 } c rq bk := by
+  simp only [startBackup]
+
+theorem touches_startBackup (cfg : Cfg) (s : State) (c : Nat) (rq : Request) (bk : Step) :
+    Touches c s (startBackup cfg s c rq bk) := by
+  have h0 : Touches c s { s with brdy := s.brdy + pendingRun (cfg.bready.drop s.brdy) + 1 } :=
+    ⟨fun _ _ => rfl, ⟨[], by simp, by simp⟩⟩
+  simp only [startBackup]
+  split
+  · exact h0.trans ((touches_emit c _ _ (backupNotReady_about c)).trans (touches_setPhase c _ _))
+  · exact h0.trans (touches_callBackup _ c rq bk)
 
 theorem touches_pollInner (cfg : Cfg) (s : State) (c : Nat) (rq : Request) (k t : Nat) (out : Out) (bk : Step) :
     Touches c s (pollInner cfg s c rq k t out bk) := by
@@ -185,7 +227,7 @@ theorem touches_pollInner (cfg : Cfg) (s : State) (c : Nat) (rq : Request) (k t 
       ⟨fun _ _ => rfl, ⟨_, rfl, completionInner_about cfg c rq s.fnCalls k out⟩⟩
     split
     · exact h1.trans (touches_setPhase c _ _)
-    · exact h1.trans (touches_startBackup _ c rq bk)
+    · exact h1.trans (touches_startBackup cfg _ c rq bk)
   · exact Touches.refl c s
 
 theorem touches_pollFresh (cfg : Cfg) (s : State) (c : Nat) (rq : Request) (plan : List Step) :
@@ -216,11 +258,11 @@ theorem stage_pollBackup {cfg : Cfg} {s : State} {c : Nat} {rq : Request} {k2 t 
     exact Final.finishedBackup rq n k out k2 out2 hn hc.2 hnx
   · exact h
 
-theorem stage_startBackup {cfg : Cfg} {s : State} {c : Nat} {rq : Request} {bk : Step} {n k : Nat} {out : Out}
+theorem stage_callBackup {cfg : Cfg} {s : State} {c : Nat} {rq : Request} {bk : Step} {n k : Nat} {out : Out}
     (hn : out ≠ .never) (hnx : (completionInner cfg c rq n k out).2 = .toBackup)
     (hev : evsOf c s.log = traceFin cfg c rq n k out) :
-    Stage cfg (startBackup s c rq bk) c := by
-  unfold startBackup
+    Stage cfg (callBackup s c rq bk) c := by
+  unfold callBackup
   apply stage_pollBackup (lookup_setPhase_same _ c _)
   unfold Stage
   rw [lookup_setPhase_same]
@@ -228,6 +270,21 @@ theorem stage_startBackup {cfg : Cfg} {s : State} {c : Nat} {rq : Request} {bk :
   show evsOf c (s.log ++ [FEv.backupCall c s.serial rq]) = _
   rw [evsOf_append, hev]
   simp [evsOf, about, traceToBackup, traceFin]
+
+theorem stage_startBackup {cfg : Cfg} {s : State} {c : Nat} {rq : Request} {bk : Step} {n k : Nat} {out : Out}
+    (hn : out ≠ .never) (hnx : (completionInner cfg c rq n k out).2 = .toBackup)
+    (hev : evsOf c s.log = traceFin cfg c rq n k out) :
+    Stage cfg (startBackup cfg s c rq bk) c := by
+  simp only [startBackup]
+  split
+  · unfold Stage
+    rw [lookup_setPhase_same]
+    show Final cfg c (evsOf c (emit _ (backupNotReady c)).log)
+    rw [evsOf_emit_same (backupNotReady_about c)]
+    show Final cfg c (evsOf c s.log ++ _)
+    rw [hev]
+    exact Final.backupNotReady rq n k out hn hnx
+  · exact stage_callBackup (s := { s with brdy := s.brdy + pendingRun (cfg.bready.drop s.brdy) + 1 }) hn hnx hev
 
 theorem stage_pollInner {cfg : Cfg} {s : State} {c : Nat} {rq : Request} {k t : Nat} {out : Out} {bk : Step}
     (hph : lookup s.phase c = some (.inner rq k t out bk)) (h : Stage cfg s c) :
@@ -285,16 +342,32 @@ theorem step_inv (cfg : Cfg) (s : State) (op : Op) (hinv : Inv cfg s) : Inv cfg 
       split
       · exact hinv
       · rename_i hk
-        apply inv_of_touches hinv (touches_setPhase c s _)
         have hnone : lookup s.phase c = none := by
           simp only [known, Bool.or_eq_true, not_or, Bool.not_eq_true, Option.isSome_eq_false_iff,
             Option.isNone_iff_eq_none] at hk
           exact hk.2
+        have hab := arriveEvents_about c (pollReady (answer cfg.ready s.rdy))
+        unfold arriveS
+        apply inv_of_touches hinv (Touches.trans (s2 := emit { s with rdy := s.rdy + 1 } _) ⟨fun _ _ => rfl, ⟨_, rfl, hab⟩⟩
+          (touches_setPhase c _ _))
         have := hinv c
         unfold Stage at this ⊢
         rw [hnone] at this
         rw [lookup_setPhase_same]
-        exact ⟨this, rfl⟩
+        cases answer cfg.ready s.rdy with
+        | ready =>
+            show evsOf c (s.log ++ []) = [] ∧ _
+            rw [List.append_nil]; exact ⟨this, rfl⟩
+        | pending =>
+            show Final cfg c (evsOf c (s.log ++ [FEv.notReady c]))
+            rw [evsOf_append, this]
+            simp only [evsOf, about, List.filter, beq_self_eq_true, List.nil_append]
+            exact Final.notReady
+        | error =>
+            show Final cfg c (evsOf c (s.log ++ [FEv.resp c (.inner readyErr), FEv.result c (.inner readyErr)]))
+            rw [evsOf_append, this]
+            simp only [evsOf, about, List.filter, beq_self_eq_true, List.nil_append]
+            exact Final.readyFailed
   | poll c =>
       simp only [stepS]
       split
@@ -405,6 +478,27 @@ theorem completionInner_cases (cfg : Cfg) (c : Nat) (rq : Request) (n k : Nat) (
       | finish cbs o => exact Or.inr (Or.inl ⟨ri, cbs, o, rfl, h2, completionInner_finish h1 h2⟩)
       | backup cbs => exact Or.inr (Or.inr ⟨ri, cbs, rfl, h2, completionInner_backup h1 h2⟩)
 
+theorem innerDone_mem_completionInner (cfg : Cfg) (c : Nat) (rq : Request) (n k : Nat) (out : Out) :
+    FEv.innerDone c k out ∈ (completionInner cfg c rq n k out).1 := by
+  unfold completionInner
+  split <;> simp
+
+/-- a completion block never contains a callback of the backup phase -/
+theorem callback_not_mem_completionBackup (c : Nat) (rq : Request) (k : Nat) (out : Out) (c' : Nat) (cb : Callback) :
+    FEv.callback c' cb ∉ completionBackup c rq k out := by
+  unfold completionBackup
+  split <;> simp
+
+/-- a predicate or strategy function is invoked in a completion block only when the inner call
+ended in an error -/
+theorem callback_mem_completionInner {cfg : Cfg} {c : Nat} {rq : Request} {n k : Nat} {out : Out} {c' : Nat}
+    {cb : Callback} (h : FEv.callback c' cb ∈ (completionInner cfg c rq n k out).1) : ∃ kd, out = .err kd := by
+  cases out with
+  | err kd => exact ⟨kd, rfl⟩
+  | ok => simp [completionInner, svcResult, afterInner, actEvents] at h
+  | panic => simp [completionInner, svcResult] at h
+  | never => simp [completionInner, svcResult] at h
+
 theorem completionBackup_cases (c : Nat) (rq : Request) (k : Nat) (out : Out) :
     (svcResult rq k out = none ∧ completionBackup c rq k out = [.backupDone c k out, .panicked c]) ∨
     (∃ rb, svcResult rq k out = some rb ∧
@@ -458,6 +552,16 @@ theorem equations_realised : True := by
   have := @predCalls.eq_1
   have := @afterInner.eq_1
   have := @afterInner.eq_2
+  have := @arriveS.eq_1
+  have := @pollReady.eq_1
+  have := @pollReady.eq_2
+  have := @pollReady.eq_3
+  have := @arriveEvents.eq_1
+  have := @arriveEvents.eq_2
+  have := @arriveEvents.eq_3
+  have := @answer.eq_1
+  have := @backupNotReady.eq_1
+  have := @readyErr.eq_1
   trivial
 end realise
 
